@@ -1,0 +1,11 @@
+//go:build verif
+
+package vnet
+
+// C16: the virtual-net routing tables are shared by the tun reader and every
+// connection handler.
+//
+//verif:guarded clientRouter mu routes
+//verif:guarded serverRouter mu namedConns srcIPConns
+//verif:sweep-type clientRouter props=C16 kinds=lock
+//verif:sweep-type serverRouter props=C16 kinds=lock
